@@ -60,7 +60,7 @@ func c07bHandler(w http.ResponseWriter, r *http.Request) {
 		}
 	}
 	// answer once the whole burst is here at the same time, or after a grace time
-	deadline := time.Now().Add(5 * time.Second)
+	deadline := time.Now().Add(10 * time.Second)
 	for atomic.LoadInt64(&c07bMax) < atomic.LoadInt64(&c07bWant) && time.Now().Before(deadline) {
 		time.Sleep(2 * time.Millisecond)
 	}
@@ -92,7 +92,7 @@ func execC07Burst(sc c07Burst) *vstat.Outcome {
 	}
 	addr := listenAddr(c07bAddr)
 	tr := &http.Transport{DisableCompression: true, MaxIdleConnsPerHost: 256}
-	cl := &http.Client{Transport: tr, Timeout: 20 * time.Second}
+	cl := &http.Client{Transport: tr, Timeout: 45 * time.Second}
 	defer tr.CloseIdleConnections()
 	// the keys become hit-for-pass (their answers carry no Cache-Control)
 	atomic.StoreInt64(&c07bWant, 0)
